@@ -564,6 +564,17 @@ func (fc *FnCtx) expr(st *State, e ast.Expr) Term {
 		}
 		return fc.unbox(x, t)
 	case *ast.FuncLit:
+		// a closure that is not inlined may run at any later call: the outer locals it assigns are
+		// treated as modifiable by every call from here on
+		if objs, _, _ := fc.assignedIn(e.Body); len(objs) > 0 {
+			for _, o := range objs {
+				if o.Pos() < e.Pos() || o.Pos() > e.End() {
+					if _, isVar := o.(*types.Var); isVar && o.Parent() != nil && o.Pkg() != nil && o.Parent() != o.Pkg().Scope() {
+						fc.escaped[o] = true
+					}
+				}
+			}
+		}
 		v := fc.fresh("funclit", fc.typeOf(e))
 		fc.assumeGlobal(boolT("(> " + v.S + " 0)"))
 		return v
